@@ -122,15 +122,22 @@ def mk_grid_fp(K):
 
 
 def o_grid_exact(ctx):
-    """make_grid in exact arithmetic (rationals): K+1 points min + i*step"""
+    """make_grid in exact arithmetic: for max = min + (K + f)*step with
+    0 <= f <= 0.99 the grid is min, min+step, ..., min+K*step: every point
+    inside [min, max], the next one beyond max"""
     import propka.lib as L
     K = ctx.choice('K', [0, 1, 4])
     a = ctx.real('min', -5, 20)
     s = ctx.real('step', 0.01, 5)
-    pts = list(itertools.islice(L.make_grid(a, a + K * s, s), K + 3))
-    ctx.claim('exactly-K+1-points', len(pts) == K + 1)
+    f = ctx.real('fraction_of_a_step_beyond_the_last_point', 0, 0.99)
+    mx = a + K * s + f * s
+    pts = list(itertools.islice(L.make_grid(a, mx, s), K + 3))
+    ctx.claim('exactly-K+1-points', len(pts) == K + 1, detail='%d points, K=%d' % (len(pts), K))
     for i, x in enumerate(pts):
         ctx.claim('points-are-min-plus-i-step', eq(x, a + i * s))
+        ctx.claim('no-point-beyond-max', le(x, mx))
+    # an empty range gives an empty grid
+    ctx.claim('empty-when-max-below-min', list(itertools.islice(L.make_grid(a, a - s, s), 2)) == [])
 
 
 def mk_window(step_hundredths):
@@ -192,8 +199,8 @@ def obligations(tier):
     obs.append(Obligation('O2-profile-optimum-ranges', o_profile, code=['propka/molecular_container.py:MolecularContainer.get_folding_profile', 'propka/lib.py:make_grid'],
                           bounds='1, 3 or 5 grid points with free symbolic energies in [-50,50]', shims=['conformation energy method -> symbolic table'],
                           claim_doc='optimum = a minimal profile point; ranges = min/max pH of the points satisfying their predicate', max_paths=100000, shards=8))
-    obs.append(Obligation('O3-grid-exact', o_grid_exact, code=['propka/lib.py:make_grid'], bounds='K in {0,1,4}; min in [-5,20], step in [0.01,5] (exact reals)',
-                          claim_doc='K+1 points min + i*step'))
+    obs.append(Obligation('O3-grid-exact', o_grid_exact, code=['propka/lib.py:make_grid'], bounds='K in {0,1,4}; min in [-5,20], step in [0.01,5], max = min + (K+f)*step with f in [0,0.99] (exact reals)',
+                          claim_doc='K+1 points min + i*step, none beyond max', max_paths=2000))
     # z3 needs minutes per QF_FP query here: thorough tier only
     ks = () if tier == 'quick' else (1, 2, 3, 5)
     for K in ks:
